@@ -3,6 +3,7 @@ package rules
 import (
 	"fmt"
 	"sort"
+	"strings"
 
 	"golang.org/x/tools/go/ssa"
 
@@ -27,6 +28,7 @@ func init() {
 // orderException documents an effect the classifier flags but that cannot influence the result.
 type orderException struct {
 	fn, kind string
+	detail   string // when set, the issue's description must contain it (narrows the exception to one location)
 	reason   string
 	verify   func(c *core.Ctx, fn *ssa.Function) (bool, string)
 }
@@ -50,7 +52,7 @@ func checkMapOrder(c *core.Ctx, rule string, cone []*ssa.Function, exceptions []
 			for _, is := range issues {
 				excused := false
 				for _, ex := range exceptions {
-					if ex.fn == fname(fn) && ex.kind == is.Kind {
+					if ex.fn == fname(fn) && ex.kind == is.Kind && (ex.detail == "" || strings.Contains(is.Detail, ex.detail)) {
 						ok, why := true, ""
 						if ex.verify != nil {
 							ok, why = ex.verify(c, fn)
